@@ -138,7 +138,9 @@ func (o OneOfSchema[KeyType]) UnserializeType(data any) (result any, err error) 
 	}
 	unserializedMap, ok := unserializedData.(map[string]any)
 	if ok {
-		unserializedMap[o.DiscriminatorFieldNameValue] = discriminator
+		// Store the converted discriminator: the raw one may be any integer width or a numeric string, which
+		// Validate and Serialize do not accept.
+		unserializedMap[o.DiscriminatorFieldNameValue] = typedDiscriminator
 		return unserializedMap, nil
 	}
 	return saveConvertTo(unserializedData, o.ReflectedType())
